@@ -954,3 +954,119 @@ func stripLen(v ssa.Value) ssa.Value {
 	}
 	return v
 }
+
+// R11: memory window. In Accept a chunk reaches the queue still loaded only when the output window was found below the
+// spill threshold: every path from the entry to the enqueue passes UnloadOrDropChunk or the "below threshold" edge of the
+// comparison of NumOutput() with BufferMaxNumChunksInMemory. (The numeric bound itself is not decided; this is the
+// necessary condition that nothing else can switch the spill off.)
+func init() {
+	register("C03", "C03.R11", ruleC03R11)
+}
+
+func ruleC03R11(c *Ctx) {
+	fn := c.P.Fn(aBufAccept)
+	// the enqueue: the select that sends on inputChannel
+	var sends []ssa.Instruction
+	for _, op := range chanOps(fn) {
+		if op.Kind == "send" && fieldOf(op.Chan) == fBufIn {
+			sends = append(sends, op.In)
+		}
+	}
+	if len(sends) == 0 {
+		broken("C03.R11: Accept no longer sends on inputChannel")
+	}
+	// the threshold comparison
+	type edge struct {
+		b  *ssa.BasicBlock
+		si int
+	}
+	var below []edge
+	eachInstr(fn, func(in ssa.Instruction) {
+		iff, ok := in.(*ssa.If)
+		if !ok {
+			return
+		}
+		bo, ok := iff.Cond.(*ssa.BinOp)
+		if !ok {
+			return
+		}
+		mentionsWindow := func(v ssa.Value) bool {
+			return mentions(v, func(x ssa.Value) bool {
+				if cl, ok := x.(*ssa.Call); ok && cl.Common().StaticCallee() != nil && fnBaseName(cl.Common().StaticCallee()) == "NumOutput" {
+					return true
+				}
+				return false
+			})
+		}
+		mentionsLimit := func(v ssa.Value) bool {
+			return mentions(v, func(x ssa.Value) bool {
+				g, ok := x.(*ssa.Global)
+				return ok && g.Name() == "BufferMaxNumChunksInMemory"
+			})
+		}
+		// the threshold must not exceed the limit: the limit itself, limit/k (k>=1) or limit-k (k>=0)
+		var atMostLimit func(v ssa.Value) bool
+		atMostLimit = func(v ssa.Value) bool {
+			v = strip(v)
+			switch x := v.(type) {
+			case *ssa.UnOp:
+				if g, ok := x.X.(*ssa.Global); ok && x.Op == token.MUL {
+					return g.Name() == "BufferMaxNumChunksInMemory"
+				}
+			case *ssa.BinOp:
+				if k, ok := constInt(x.Y); ok {
+					if (x.Op == token.QUO && k >= 1) || (x.Op == token.SUB && k >= 0) {
+						return atMostLimit(x.X)
+					}
+				}
+			}
+			return false
+		}
+		if mentionsWindow(bo.X) && mentionsLimit(bo.Y) {
+			c.check(atMostLimit(bo.Y), "C03.R11", fn, "the spill threshold is at most BufferMaxNumChunksInMemory", bo.Pos(),
+				"the threshold is the limit, limit/k or limit-k", "the window is compared with an expression that can exceed BufferMaxNumChunksInMemory")
+		} else if mentionsLimit(bo.X) && mentionsWindow(bo.Y) {
+			c.check(atMostLimit(bo.X), "C03.R11", fn, "the spill threshold is at most BufferMaxNumChunksInMemory", bo.Pos(),
+				"the threshold is the limit, limit/k or limit-k", "the window is compared with an expression that can exceed BufferMaxNumChunksInMemory")
+		}
+		switch {
+		case mentionsWindow(bo.X) && mentionsLimit(bo.Y):
+			switch bo.Op.String() {
+			case ">=", ">":
+				below = append(below, edge{iff.Block(), 1})
+			case "<", "<=":
+				below = append(below, edge{iff.Block(), 0})
+			}
+		case mentionsLimit(bo.X) && mentionsWindow(bo.Y):
+			switch bo.Op.String() {
+			case "<=", "<":
+				below = append(below, edge{iff.Block(), 1})
+			case ">", ">=":
+				below = append(below, edge{iff.Block(), 0})
+			}
+		}
+	})
+	c.floor("C03.R11", "comparisons of the output window with BufferMaxNumChunksInMemory in Accept", len(below), 1)
+	isUnload := func(in ssa.Instruction) bool {
+		if s, ok := in.(ssa.CallInstruction); ok {
+			if f := s.Common().StaticCallee(); f != nil && isAnchor(f, aUnloadDrop) {
+				return true
+			}
+		}
+		return false
+	}
+	for _, snd := range sends {
+		q := &PathQ{P: c.P, Barrier: isUnload, EdgeBlocked: func(b *ssa.BasicBlock, si int) bool {
+			for _, e := range below {
+				if e.b == b && e.si == si {
+					return true
+				}
+			}
+			return false
+		}}
+		hit, trail := q.Reach(entryOf(fn), func(in ssa.Instruction) bool { return in == snd })
+		c.check(hit == nil, "C03.R11", fn, "a chunk is queued still loaded only below the spill threshold", snd.Pos(),
+			"every path to the enqueue passes UnloadOrDropChunk or the below-threshold edge of the window comparison",
+			"the enqueue is reachable with a loaded chunk although the output window is at or above the spill threshold (the spill can be switched off by another condition): the queue of 500000 slots then holds loaded chunks and the in-memory bound is gone: "+c.P.trailString(trail))
+	}
+}
